@@ -75,11 +75,10 @@ def classify(case, out):
     e, me = dbl(d["e"]), dbl(d["maxerr"])
     nd = len(eff_dims(p["cd"]))
     if ty in (0, 1):
-        # C01: SZ-1.4 kernels without the re-check (float 4-D; double 1-D..4-D): pred + 2ke can round away
-        # from the value, the excess over e is a few ulps of the data
+        # C01: SZ-1.4 kernels without the re-check (float 4-D; double 2-D..4-D; the double 1-D kernel was repaired): pred + 2ke can
+        # round away from the value, the excess over e is a few ulps of the data
         noreg = p["cfg"].get("withLinearRegression", "YES") in ("NO", "no")
-        sz14 = (nd == 1) or noreg
-        if p["mode"] in (0, 1, 2, 3) and ((ty == 0 and nd == 4 and noreg) or (ty == 1 and sz14)):
+        if p["mode"] in (0, 1, 2, 3) and ((ty == 0 and nd == 4 and noreg) or (ty == 1 and nd >= 2 and noreg)):
             amax = dbl(d["amax"]) if "amax" in d else 0.0
             if me == me and me - e <= 64 * ulp(amax + e, ty):
                 return "fd_no_recheck"
